@@ -107,7 +107,7 @@ def classify(m):
 
 
 # ------------------------------------------------------------------- random
-def random_history(rng, cfg, n_ops, wide):
+def random_history(rng, cfg, n_ops, wide, aliases=True):
     T = cfg['disk_min_file_size']
     vals = gen.value_pool(rng, T)
     if wide:
@@ -118,7 +118,8 @@ def random_history(rng, cfg, n_ops, wide):
         rng.shuffle(pool)
         keys = pool[:rng.randrange(3, 7)]
         a = gen.pick(rng, gen.alias_keys())
-        keys.extend(a)
+        if aliases:
+            keys.extend(a)
     numeric_vals = [0, 1, -5, 2**62, 2**63 - 2, 1.5, 10]
 
     def key():
